@@ -53,6 +53,14 @@ type VerifAlloc struct {
 	CPPresent         bool
 	CPErr             string
 	CP                uint64
+	// allocation challenges node: present?, and its open challenges (blobber, round created)
+	ACPresent bool
+	OpenCh    []VerifOpenCh
+}
+
+type VerifOpenCh struct {
+	BlobberID string
+	Round     int64
 }
 
 type VerifPool struct {
@@ -188,6 +196,14 @@ func VerifStorageSnapshot(balances cstate.StateContextI, allocIDs, blobberIDs, v
 		a.CPPresent, a.CPErr = verifErr(err)
 		if err == nil {
 			a.CP = uint64(cp.Balance)
+		}
+		ac := new(AllocationChallenges)
+		ac.AllocationID = id
+		if err := balances.GetTrieNode(ac.GetKey(ADDRESS), ac); err == nil {
+			a.ACPresent = true
+			for _, oc := range ac.OpenChallenges {
+				a.OpenCh = append(a.OpenCh, VerifOpenCh{BlobberID: oc.BlobberID, Round: oc.RoundCreatedAt})
+			}
 		}
 		snap.Allocs = append(snap.Allocs, a)
 	}
